@@ -46,9 +46,21 @@ fn dump_origin(o: &Option<(Fingerprint, DerivationPath)>, out: &mut Vec<u64>) {
     }
 }
 
+/// byte strings travel packed: length, then little-endian words of 7 bytes
+fn pack(b: &[u8]) -> Vec<u64> {
+    let mut v = vec![b.len() as u64];
+    for ch in b.chunks(7) {
+        let mut w: u64 = 0;
+        for (j, x) in ch.iter().enumerate() {
+            w |= (*x as u64) << (8 * j);
+        }
+        v.push(w);
+    }
+    v
+}
+
 fn dump_body(s: &str, out: &mut Vec<u64>) {
-    out.push(s.len() as u64);
-    out.extend(s.bytes().map(|b| b as u64));
+    out.extend(pack(s.as_bytes()));
 }
 
 fn wild(w: &Wildcard) -> u64 {
@@ -153,7 +165,7 @@ fn table_of(s: &str) -> Vec<(Vec<u8>, Vec<u64>)> {
     for c in cands {
         let info = |tag: u64, d: u64, txt: String| {
             let mut v = vec![tag, d];
-            v.extend(txt.bytes().map(|b| b as u64));
+            v.extend(pack(txt.as_bytes()));
             v
         };
         let r = guarded(|| {
@@ -260,7 +272,7 @@ fn observe(text: String, kind: &'static str) -> Case {
                         _ => 0,
                     };
                     let mut pr = vec![1, flag];
-                    pr.extend(p.bytes().map(|b| b as u64));
+                    pr.extend(pack(p.as_bytes()));
                     (d, pr, Some(p), outcome, shapes)
                 }
             }
@@ -987,14 +999,14 @@ pub fn run(args: &[String]) {
                 out.push(';');
             }
             out.push('(');
-            lst(&mut out, c.text.as_bytes().iter());
+            lst(&mut out, pack(c.text.as_bytes()).iter());
             out.push_str(", [");
             for (t, (cand, info)) in c.table.iter().enumerate() {
                 if t > 0 {
                     out.push(';');
                 }
                 out.push('(');
-                lst(&mut out, cand.iter());
+                lst(&mut out, pack(cand).iter());
                 out.push_str(", ");
                 lst(&mut out, info.iter());
                 out.push(')');
